@@ -112,6 +112,9 @@ def run(ctx, rep, tier):
     rep.rule("R5", "updateCellPos recomputes every net of the cell; recomputeNet updates bound and value together", 4)
     rep.rule("PI", "implicit minimum pin count of the net models is guaranteed by the builders' filters", 2)
     rep.rule("TP", "incremental topologies built from same-axis positions and offsets", 4)
+    rep.rule("LA", "per-net accumulators (pin extremes, pin lists) are reset for every net", 8)
+    rep.rule("NF", "the model builders drop a net only for having fewer than two pins", 1)
+    rep.rule("QF", "net-model builders read placed (orientation-aware) geometry only", 4)
 
     # ---- T3 -------------------------------------------------------------------
     CO = CQ + "CellOrientation"
@@ -163,6 +166,18 @@ def run(ctx, rep, tier):
     check_w4(ctx, rep)
     check_r5(ctx, rep)
     check_tp(ctx, rep)
+    check_model_frame(ctx, rep)
+    from .common import check_loop_accumulators, forwarding_target
+    fs = []
+    for q in ("IncrNetModel::xTopology", "IncrNetModel::yTopology", "NetModel::xTopology", "NetModel::yTopology", "Circuit::hpwl",
+              "IncrNetModel::computeNetMinMaxPos", "IncrNetModel::computeValue"):
+        for f_ in prog.func(CQ + q, required=False) or []:
+            f2, _e = forwarding_target(ctx, f_)
+            if f2 not in fs:
+                fs.append(f2)
+    if check_loop_accumulators(ctx, rep, "LA", fs) == 0:
+        rep.unknown("LA", None, None, "per-net accumulators", "none recognised in the wirelength code (shape changed)")
+    check_net_filter(ctx, rep)
     check_pin_invariant(ctx, rep)
 
 
@@ -503,6 +518,60 @@ def _is_store_to(c, target):
     if c[0] == "op" and c[1] == "operator=" and c[2] == target:
         return True
     return False
+
+
+def check_net_filter(ctx, rep):
+    """NF. IncrNetModelBuilder::addNet may ignore a net only because it has fewer than two pins: every return that precedes the
+    storage of the net is guarded solely by tests of the pin count (`cells.size() <= 1`, `< 2`, `.empty()`). A net whose pins sit
+    on one cell at different offsets still has an extent."""
+    prog = ctx.prog
+    fs = [f for f in prog.func(CQ + "IncrNetModelBuilder::addNet", required=False) or []]
+    if not fs:
+        rep.unknown("NF", None, None, "IncrNetModelBuilder::addNet", "not found")
+        return
+    for f in fs:
+        rets = [x for x in walk(f.body) if x.get("kind") == "ReturnStmt"]
+        bad = []
+        for r in rets:
+            for gc, val, _a, asr in (ctx.guards(f, r) or []):
+                if asr:
+                    continue
+                size_test = gc[0] == "bin" and gc[1] in ("<=", "<", "==") and gc[2][0] == "call" and gc[2][1] == "size" and gc[3][0] == "lit" and val is True
+                if size_test:
+                    try:
+                        k = int(str(gc[3][1]).rstrip("uUlL"))
+                    except ValueError:
+                        k = 99
+                    if (gc[1] == "<=" and k <= 1) or (gc[1] == "<" and k <= 2) or (gc[1] == "==" and k <= 1):
+                        continue
+                if gc[0] == "call" and gc[1] == "empty" and val is True:
+                    continue
+                bad.append((r, gc, val))
+        if bad:
+            r, gc, val = bad[0]
+            rep.violation("NF", r, f, "%s drops a net under %s" % (f.short, pretty(gc)[:80]),
+                          "only nets with fewer than two pins have no extent; any other net contributes to the wirelength the model must report",
+                          key="%s|net dropped for another reason than its pin count" % f.short)
+        else:
+            rep.holds("NF", f.decl, f, "%s ignores a net only when it has fewer than two pins (%d early return(s))" % (f.short, len(rets)))
+
+
+def check_model_frame(ctx, rep, rid="QF"):
+    """The builders of the wirelength models (IncrNetModel / NetModel x/yTopology, following thin forwarders) must read pin offsets,
+    positions and sizes in the placed frame (pinXOffset(), x(), placedWidth(), cellX_ ...): Circuit::hpwl() is defined on it. A raw
+    member read (pinXOffsets_, cellWidth_) next to placed positions misplaces the pins of mirrored / turned cells."""
+    from ..qual import check_frame
+    from .common import forwarding_target
+    prog = ctx.prog
+    fs = []
+    for q in ("IncrNetModel::xTopology", "IncrNetModel::yTopology", "NetModel::xTopology", "NetModel::yTopology"):
+        for f in prog.func(CQ + q):
+            f2, _env = forwarding_target(ctx, f)
+            if f2 not in fs:
+                fs.append(f2)
+    n = check_frame(ctx, rep, rid, fs, "the model would not measure Circuit::hpwl()")
+    if n == 0:
+        rep.unknown(rid, None, None, "net-model builders", "no builder reading circuit geometry found (shape changed)")
 
 
 # ---- TP ---------------------------------------------------------------------------
